@@ -11,6 +11,7 @@ import time
 
 from harness import common as C
 from harness import gen, model, ref
+from harness.nestfirst import effective_table
 from harness.model import T
 
 OPTS = dict(meta_keys=['key_transform_with_dump', 'marshal_date_time_as', 'skip_defaults', 'recursive'],
@@ -164,16 +165,6 @@ def _ensure_nested(rng, ty, o):
     idx = next((i for i, f in enumerate(ty['info']['fields']) if f.get('dflt') is not None), len(ty['info']['fields']))
     ty['info']['fields'].insert(idx, {'name': fname})
     ty['ftys'].append([fname, rng.choice(NEST_SHAPES)(c)])
-
-
-def effective_table(ty):
-    """class name -> effective Meta when `ty` is dumped as the main class (documented cascade)"""
-    infos = {}
-    model._collect_infos(ty, infos)
-    own = model.own_meta(ty['info'])
-    cfg = ref.root_config(own)
-    return {n: (ref.effective_meta(own, None) if node is ty else ref.effective_meta(model.own_meta(node['info']), cfg))
-            for n, node in infos.items()}
 
 
 def standalone_first_candidates(ty):
